@@ -153,6 +153,21 @@ def run_case(ctx, k, rng):
             ctx.check("keep_inf=True,val_inf replaces", abs(Ek - rr) <= 1e-12 * (1 + math.log(len(big))), got=Ek, ref=rr, val_inf=v)
         except Exception as e:
             ctx.exception("keep_inf=True,val_inf replaces", e)
+        # the same requests on a list of barcodes, the infinite bars sitting in any member
+        try:
+            other = gen_bars(rng, int(rng.integers(1, 8)), "int")
+            other2 = np.vstack([other, [[0.0, np.inf]]])[rng.permutation(len(other) + 1)]
+            lst = [other2, big] if rng.random() < 0.5 else [big, other, other2]
+            El = call(ctx, lst, keep_inf=True, val_inf=v2) if (v2 := float(max(v, np.max(other[:, 1]) + 1))) else None
+            refs = [shannon([float(d - b) for b, d in np.where(np.isinf(x), v2, x)]) for x in lst]
+            Ed = call(ctx, lst, keep_inf=False)
+            refd = [shannon([float(d - b) for b, d in x[np.isfinite(x[:, 1])]]) for x in lst]
+            okl = all(abs(float(a) - r) <= 1e-12 * (1 + math.log(len(x))) for a, r, x in zip(El, refs, lst)) and len(El) == len(lst)
+            okd = all(abs(float(a) - r) <= 1e-12 * (1 + math.log(len(x))) for a, r, x in zip(Ed, refd, lst)) and len(Ed) == len(lst)
+            ctx.check("list of barcodes: infinite bars replaced / dropped in every member", okl and okd, replaced=El, want_replaced=refs,
+                      dropped=Ed, want_dropped=refd)
+        except Exception as e:
+            ctx.exception("list of barcodes: infinite bars replaced / dropped in every member", e)
         try:
             r = call(ctx, big, keep_inf=True)
             ctx.check("keep_inf=True without value raises", False, got=repr(r))
